@@ -11,6 +11,8 @@ from __future__ import annotations
 import numpy as np
 from hypothesis import strategies as st
 
+from vp.gen.morph import fl
+
 from vp.gen import morph as gm
 from vp.ref import mech as R2
 
@@ -43,7 +45,7 @@ def channel_placement(draw, N, mechs=("HH", "Leak", "Na", "K", "Km", "CaL"), max
         states = {}
         for g in table["states"]:
             if draw(st.booleans()):
-                states[g] = [draw(st.floats(0.0, 1.0)) for _ in rows]
+                states[g] = [draw(fl(0.0, 1.0)) for _ in rows]
         out.append({"mech": mech, "name": name, "rows": rows, "params": params, "states": states})
     return out
 
@@ -64,14 +66,14 @@ def edge_list(draw, N, max_edges=5, types=SYN_TYPES, min_edges=1):
             if k.startswith("g"):
                 params[k] = draw(st.one_of(st.just(0.0), gm.log_uniform(1e-5, 1e-2), gm.log_uniform(1e-4, 1e-3)))
             elif k == "e_syn":
-                params[k] = draw(st.floats(-90.0, 20.0))
+                params[k] = draw(fl(-90.0, 20.0))
             elif k == "k_minus":
                 params[k] = draw(gm.log_uniform(0.005, 0.5))
             elif k == "x_offset":
-                params[k] = draw(st.floats(-80.0, -40.0))
+                params[k] = draw(fl(-80.0, -40.0))
             elif k == "slope":
                 params[k] = draw(gm.log_uniform(0.02, 0.5))
-        states = {g: draw(st.floats(0.0, 1.0)) for g in table["states"]}
+        states = {g: draw(fl(0.0, 1.0)) for g in table["states"]}
         edges.append({"pre": pre, "post": post, "type": t, "params": params, "states": states})
     return edges
 
@@ -83,11 +85,11 @@ def stimuli(draw, N, T, max_stim=3, min_stim=0):
         row = draw(st.integers(0, N - 1))
         kind = draw(st.sampled_from(["step", "free"]))
         if kind == "step":
-            amp = draw(st.floats(-0.5, 2.0, allow_subnormal=False))
+            amp = draw(fl(-0.5, 2.0))
             a = draw(st.integers(0, T - 1))
             samples = [amp if i >= a else 0.0 for i in range(T)]
         else:
-            samples = [draw(st.floats(-1.0, 2.0, allow_subnormal=False)) for _ in range(T)]
+            samples = [draw(fl(-1.0, 2.0)) for _ in range(T)]
         out.append({"row": row, "samples": samples})
     return out
 
